@@ -106,16 +106,16 @@ type op struct {
 }
 
 type world struct {
-	kind   string
-	nodes  []*node
-	hostA  string
-	hostB  string
-	out1   *bytes.Buffer
-	in1    io.Reader
-	mapfs  fstest.MapFS
-	cache  wazero.CompilationCache
-	guest  *guestRT
-	fsAtom [2]wazero.FSConfig
+	kind        string
+	nodes       []*node
+	hostA       string
+	hostB       string
+	out1        *bytes.Buffer
+	in1         io.Reader
+	mapfs       fstest.MapFS
+	cache       wazero.CompilationCache
+	guest       *guestRT
+	fsAtom      [2]wazero.FSConfig
 	fsAtomModel [2]*fsModel
 }
 
@@ -228,8 +228,12 @@ func rcOps() []op {
 			return &node{rc: f(w, n.rc), model: mf(n.model.(rcModel)), born: name}
 		}})
 	}
-	add("WithCoreFeatures(V1)", func(w *world, c wazero.RuntimeConfig) wazero.RuntimeConfig { return c.WithCoreFeatures(api.CoreFeaturesV1) }, func(m rcModel) rcModel { m.v1 = true; return m })
-	add("WithCoreFeatures(V2)", func(w *world, c wazero.RuntimeConfig) wazero.RuntimeConfig { return c.WithCoreFeatures(api.CoreFeaturesV2) }, func(m rcModel) rcModel { m.v1 = false; return m })
+	add("WithCoreFeatures(V1)", func(w *world, c wazero.RuntimeConfig) wazero.RuntimeConfig {
+		return c.WithCoreFeatures(api.CoreFeaturesV1)
+	}, func(m rcModel) rcModel { m.v1 = true; return m })
+	add("WithCoreFeatures(V2)", func(w *world, c wazero.RuntimeConfig) wazero.RuntimeConfig {
+		return c.WithCoreFeatures(api.CoreFeaturesV2)
+	}, func(m rcModel) rcModel { m.v1 = false; return m })
 	for _, b := range []bool{true, false} {
 		b := b
 		add(fmt.Sprintf("WithCloseOnContextDone(%v)", b), func(w *world, c wazero.RuntimeConfig) wazero.RuntimeConfig { return c.WithCloseOnContextDone(b) }, func(m rcModel) rcModel { m.term = b; return m })
@@ -422,17 +426,17 @@ type step struct {
 }
 
 type explorer struct {
-	run      *fw.Run
-	kind     string
-	ops      []op
-	depth    int
+	run           *fw.Run
+	kind          string
+	ops           []op
+	depth         int
 	observeLeaves bool
-	states   atomic.Int64
-	trans    atomic.Int64
-	obs      atomic.Int64
-	outcomes *fw.Counter
-	samples  *fw.Sampler
-	distinct sync.Map
+	states        atomic.Int64
+	trans         atomic.Int64
+	obs           atomic.Int64
+	outcomes      *fw.Counter
+	samples       *fw.Sampler
+	distinct      sync.Map
 }
 
 func newWorld(kind string, g *guestRT, hostA, hostB string, cache wazero.CompilationCache) *world {
@@ -607,26 +611,48 @@ func (e *explorer) dfs(w *world, path []step) {
 }
 
 func (e *explorer) exploreAll(hostA, hostB string) {
-	// shard on the first step
-	type shard struct{ s step }
-	var shards []step
-	for oi := range e.ops {
-		shards = append(shards, step{0, e.ops[oi].name})
-	}
 	cache := wazero.NewCompilationCache()
+	// Level 1 (sequential, cheap): apply every op to the root once, with counting and invariant
+	// checks, and remember how many nodes exist afterwards.
+	type shard struct{ s1, s2 step }
+	var shards []shard
+	{
+		g := newGuestRT()
+		for oi := range e.ops {
+			w := newWorld(e.kind, g, hostA, hostB, cache)
+			w.nodes = []*node{w.root()}
+			if oi == 0 {
+				e.states.Add(1)
+			}
+			s1 := step{0, e.ops[oi].name}
+			if !e.apply(w, nil, s1) {
+				e.leaf(w, []step{s1})
+				e.rebuild(w, []step{s1})
+			}
+			for p := 0; p < len(w.nodes); p++ {
+				for oj := range e.ops {
+					shards = append(shards, shard{s1, step{p, e.ops[oj].name}})
+				}
+			}
+		}
+		g.rt.Close(context.Background())
+	}
+	// Level 2 shards (parallel, well balanced): silently rebuild the one-step prefix, then apply
+	// the second step with counting and checks and explore everything below it.
 	fw.Parallel(len(shards), runtime.NumCPU(), func(i int) {
 		g := newGuestRT()
 		defer g.rt.Close(context.Background())
 		w := newWorld(e.kind, g, hostA, hostB, cache)
-		w.nodes = []*node{w.root()}
-		e.states.Add(1)
-		s := shards[i]
-		ok := e.apply(w, nil, s)
+		sh := shards[i]
+		e.rebuild(w, []step{sh.s1})
+		path := []step{sh.s1}
+		ok := e.apply(w, path, sh.s2)
+		np := []step{sh.s1, sh.s2}
 		if !ok {
-			e.leaf(w, []step{s})
-			e.rebuild(w, []step{s})
+			e.leaf(w, np)
+			return
 		}
-		e.dfs(w, []step{s})
+		e.dfs(w, np)
 	})
 }
 
@@ -685,7 +711,7 @@ func main() {
 	os.RemoveAll(hostB)
 	run.Finish(fw.Coverage{
 		Evaluations: trans, DistinctNontriv: states, States: states, Transitions: trans, TracesValidated: trans,
-		Rule: "state = derivation tree (set of configuration nodes, each with the history that produced it); transition = With.../Instantiate applied to ANY existing node; every transition executes the real method; a state is non-trivial when it has >=2 nodes (all but the roots); distinct = distinct derivation histories (stateless enumeration, no merging)",
+		Rule:    "state = derivation tree (set of configuration nodes, each with the history that produced it); transition = With.../Instantiate applied to ANY existing node; every transition executes the real method; a state is non-trivial when it has >=2 nodes (all but the roots); distinct = distinct derivation histories (stateless enumeration, no merging)",
 		Samples: samples.List(), Exhaustive: true, Outcomes: comp, Bounds: bounds,
 		Extra: map[string]any{"leaf_observations_vs_reference": obs},
 	}, []string{
